@@ -290,7 +290,14 @@ pub fn run(ctx: &mut Ctx) {
         {
             let t = match rng.below(4) {
                 0 => format!("{base} \"unterminated"),
-                1 => format!("{base} /* unterminated /* nested */"),
+                1 => {
+                    if rng.chance(1, 3) {
+                        format!("{base} /* unterminated /* nested */")
+                    } else {
+                        ctx.count("lexical:generated-unterminated-comment");
+                        format!("{base} {}", wacgen::gen_unterminated_comment(&mut rng))
+                    }
+                }
                 2 => format!("{base} %"),
                 _ => format!("{base} {}", rng.pick(&["$", "!", "#", "-", "&", "0", "1.0", "'a'", "\\"])),
             };
